@@ -336,6 +336,10 @@ def w_structure(p):
     if kind == "default":
         c = np.ones(n) / np.sqrt(n)
         v = w_state(n)
+    elif kind == "integers":  # the documented type of `coeff` is list[int]: un-normalised weights, the state is normalised (docstring: "Normalize coefficients")
+        raw = [1 + (3 * j + n) % 4 for j in range(n)]
+        c = np.array(raw, dtype=float) / np.linalg.norm(raw)
+        v = w_state(n, list(raw))
     else:
         rng = _rng(p, n)
         c = rng.random(n) + 0.2
@@ -1158,7 +1162,7 @@ def cases(tier, seed):
                     add("ghz.structure", dict(d=d, n=n, coeff=kind, seed=useeds[0]), "ghz/%s-coefficients" % kind, d >= 2 and n >= 2)
     add("ghz.errors", {}, "ghz/errors")
     for n in range(2, 7):
-        for kind in ("default", "random"):
+        for kind in ("default", "random", "integers"):
             for s in (useeds if kind == "random" else useeds[:1]):
                 add("w_state.structure", dict(n=n, coeff=kind, seed=s), "w_state/%s-coefficients" % kind)
     add("w_state.errors", {}, "w_state/errors")
